@@ -4,7 +4,7 @@ claim("C01",
  "DESIGN.md section 7 C01")
 claim("C04",
  "Contract of (*Client).Kill (nothing to do => no effect; otherwise graceful-and-done or runner.Kill called, management goroutines awaited, socket directory removed; graceful exit is not force-killed) and of CleanupClients (every managed client gets a Kill, all awaited, lock released before waiting) discharged for all states; every wait on Kill's path needs a bounding alternative.",
- "Actual reaping by the kernel and the 2 s grace value are not decided. Known finding D3: ClientProtocol.Close is not time-bounded (recorded in known_findings.json). WaitGroup wait justified by listed signallers (trusted).",
+ "Actual reaping by the kernel and the 2 s grace value are not decided. Fixed defect D3: the shutdown request in Kill is now bounded by a 2 s timer. WaitGroup wait justified by listed signallers (trusted).",
  "DESIGN.md section 7 C04")
 claim("C05",
  "For every path of (*Client).Start after a successful runner.Start: an error return implies runner.Kill was called (deferred cleanup reads the named result), the runner is recorded in the client before launch, and Kill with no address force-kills.",
@@ -72,7 +72,7 @@ claim("C20",
  "DESIGN.md section 7 C20")
 claim("C03",
  "Ingredients of crash-to-error: the wait goroutine sets exited and cancels doneCtx on every path; Start returns an error whenever its select ends by exit/timeout or the line channel closes; every blocking operation on the host paths (Start, Client, Dispense, Ping, broker Accept/Dial/knock, stdio client) has a bounding alternative (timer, doneCtx) or is I/O on the plugin connection (accepted in mode peer-dead); no panic obligations on all these functions for arbitrary plugin output; doneCtx is what newGRPCClient hands to GRPCPlugin.GRPCClient and the stdio stream.",
- "Mode peer-dead assumes pending I/O on a connection to a dead process fails (kernel, yamux keepalive, gRPC). Calls made through user-generated gRPC stubs are not under contract. Known finding D3 (C04) is the one unbounded call found: Kill -> ClientProtocol.Close.",
+ "Mode peer-dead assumes pending I/O on a connection to a dead process fails (kernel, yamux keepalive, gRPC). Calls made through user-generated gRPC stubs are not under contract. Fixed defect D3 (C04) was the one unbounded call found: Kill -> ClientProtocol.Close.",
  "DESIGN.md section 7 C03")
 claim("C17",
  "At both launch sites of Start (cmdrunner.NewCmdRunner, ClientConfig.RunnerFunc) the command's environment, viewed as a sequence whose effective value per key is its last entry, satisfies: cookie key -> cookie value, PLUGIN_MIN_PORT/MAX_PORT rendered from the config, PLUGIN_PROTOCOL_VERSIONS = the join of exactly the registered versions (loop invariant over the map iteration), PLUGIN_MULTIPLEX_GRPC=true when multiplexing is requested, PLUGIN_CLIENT_CERT = the generated certificate when AutoMTLS, socket group when configured, socket directory = the directory just created for a custom runner; PLUGIN_CLIENT_CERT and PLUGIN_MULTIPLEX_GRPC are otherwise exactly as in the configured Cmd.Env, independent of the host environment (fixed defect D9, hostEnv proved to filter them); with SkipHostEnv every key comes from Cmd.Env or is one of the control variables; cmd.Stdin is os.Stdin.",
